@@ -17,6 +17,7 @@ if flock /tmp/siot-test-ports.lock timeout 300 go test ${DEMOTAGS:+-tags $DEMOTA
 rm -f "$DDIR/zz_seed_demo_test.go"
 VERIF_REPO="$WT" /verif/baseline_off.sh | sed "s/^/SEED $NAME suite: /"
 cd /verif
+if [ -n "${NOCHECK:-}" ]; then git -C /repo worktree remove --force "$WT"; exit 0; fi
 VERIF_REPO="$WT" ./check "$ID" "$TIER" > /tmp/wt/eval-$NAME.check.log 2>&1; RC=$?
 res "check-exit=$RC"
 grep -E "^(VIOLATION|  signature|RESULT|CHECK-ERROR)" /tmp/wt/eval-$NAME.check.log | cut -c1-300 | sed "s/^/SEED $NAME check: /"
